@@ -227,11 +227,15 @@ func judgeC19Query(sc *SrvScenario, q *QRec, res *core.Result) {
 	if c["sample:DNS.responsetime_us"] != 1 {
 		bad("responsetime-samples", c["sample:DNS.responsetime_us"])
 	}
-	typeKey := "DNS_query." + dns.TypeToString[q.Req.Question[0].Qtype]
+	typeName, named := dns.TypeToString[q.Req.Question[0].Qtype]
+	typeKey := "DNS_query." + typeName
 	var typeTotal int64
 	for k, v := range c {
 		if len(k) > len("DNS_query.") && k[:len("DNS_query.")] == "DNS_query." {
 			typeTotal += v
+			if !named && v == 1 {
+				typeKey = k // a type without a mnemonic: whatever name the server gives its counter, it is one counter, once
+			}
 		}
 	}
 	if c[typeKey] != 1 || typeTotal != 1 {
